@@ -59,3 +59,28 @@ theorem C11_gen_pretimestep_disjoint_from_rules :
     preTimestepWrites.length = 14 := by decide +kernel
 
 end Primaite.Mask
+
+/-! ### a route registered with a component's bound `apply_request` instead of its manager (seeded C11-h)
+
+`check_valid` descends only into routes whose `func` IS a `RequestManager`; a bound method is a leaf for it, while `__call__` invokes
+it and so runs the component's own manager.  The two traversals then walk DIFFERENT trees and `C11_mask_iff_reaches` (one tree)
+says nothing.  That every dynamic edge leads to the component's manager is the Gen tie of the schema (`RequestSchema` refuses any
+other shape at an `add_request` site; `Inst` in Props/C05Inst) and, on the live tree after run-time creations, the rig's shape
+oracle. -/
+namespace Primaite.Request
+
+/-- what `__call__` effectively walks: the application `c2-beacon` (installed at run time, still INSTALLING) with its own manager,
+rule 1 = "application is RUNNING" on `scan` -/
+def execView : Kids := [("application", 0, .node [("c2-beacon", 2, .node [("scan", 1, .leaf 0)])])]
+/-- what `check_valid` walks when that route's func is the bound method: a leaf at the application's name -/
+def maskView : Kids := [("application", 0, .node [("c2-beacon", 2, .leaf 9)])]
+def installingEnv : Env := fun v _ => v != 1
+
+theorem C11_forwarding_route_counterexample :
+    checkValidK installingEnv maskView ["application", "c2-beacon", "scan"] = true ∧
+    dispatchK installingEnv execView ["application", "c2-beacon", "scan"] 0 = .failure 2 1 ∧
+    -- with the route registered as the manager both walk `execView` and agree
+    checkValidK installingEnv execView ["application", "c2-beacon", "scan"] = false := by decide
+
+end Primaite.Request
+
